@@ -155,7 +155,7 @@ func main() {
 	}
 	var evals bx.Counter
 	var distinct bx.Distinct
-	maxLen := 300
+	maxLen := 255 // the statement quantifies over payloads of 0-255 bytes (a length byte cannot say more)
 	bx.ParDo(len(all), func(i int) {
 		mt := all[i]
 		shape := mt.Dialect == "shapes"
@@ -169,10 +169,10 @@ func main() {
 			r.Fail(class, fmt.Sprintf("%s v2=%v len=%d cap=%d %x", c.Type, c.V2, len(c.Payload), c.Cap, c.Payload), c, d)
 		}
 		base, ext := mt.Def.Sizes()
-		// 1. value round trips: whole-message assignments (zero, all ones, counting) and, per
+		// 1. value round trips: whole-message assignments (zero, all ones, counting, signalling NaNs / sign bit only, infinities / negative zero / largest positive) and, per
 		// string field, every string; (per-element sweeps are C03's)
 		for _, v2 := range []bool{false, true} {
-			for bk := 0; bk < 3; bk++ {
+			for bk := 0; bk < 5; bk++ {
 				vals := gm.BaseVals(mt.Def, bk)
 				evals.Add(1)
 				var d string
@@ -220,8 +220,8 @@ func main() {
 					failP("truncation", c, d)
 				}
 			}
-			for _, j := range []int{1, 2, 3, 8, 255 - ext, 300 - ext} {
-				if j <= 0 {
+			for _, j := range []int{1, 2, 3, 8, 255 - ext} {
+				if j <= 0 || ext+j > 255 {
 					continue
 				}
 				evals.Add(2)
@@ -253,10 +253,13 @@ func main() {
 		if r.Thorough() {
 			nfill = 8
 			if !shape {
-				lim = 300
+				lim = 255
 			} else {
 				lim = ext + 40
 			}
+		}
+		if lim > 255 {
+			lim = 255
 		}
 		for n := 0; n <= lim; n++ {
 			for k := 0; k < nfill; k++ {
@@ -283,13 +286,13 @@ func main() {
 		}
 	})
 	r.Assumption = []string{
-		"payload contents: 4 fill patterns at every length 0..300 plus the encodings of 4 whole-message assignments; not all byte strings",
+		"payload contents: 4 fill patterns at every length 0..255 plus the encodings of 4 whole-message assignments; not all byte strings",
 		"user shapes: every 4th shape in quick, all 5125 in thorough",
 	}
 	r.Finish(map[string]any{
 		"evaluations":         evals.N(),
 		"distinct_nontrivial": distinct.N(),
-		"rule":                "per message type: round trips of whole-message assignments; every prefix length of the untruncated v2 encoding down to the last non-zero byte and zero/non-zero extensions of it must decode to the same value; every payload length 0..300 x 4 fills x 2 versions decoded with the payload inside a larger sentinel-filled backing array (cap>len and cap==len), compared with ref.Decode and the backing array compared byte for byte; distinct = message types covered",
+		"rule":                "per message type: round trips of whole-message assignments; every prefix length of the untruncated v2 encoding down to the last non-zero byte and zero/non-zero extensions of it must decode to the same value; every payload length 0..255 x 4 fills x 2 versions decoded with the payload inside a larger sentinel-filled backing array (cap>len and cap==len), compared with ref.Decode and the backing array compared byte for byte; distinct = message types covered",
 		"types":               len(all),
 	})
 }
